@@ -114,9 +114,10 @@ impl<const LIMBS: usize> Uint<LIMBS> {
             let new_upper = upper
                 .overflowing_shr_vartime(shift)
                 .expect("shift within range");
+            // `shift == 0` makes this a shift by `BITS`, which contributes nothing
             let lower_hi = upper
                 .overflowing_shl_vartime(Self::BITS - shift)
-                .expect("shift within range");
+                .unwrap_or(Self::ZERO);
             let lower_lo = lower
                 .overflowing_shr_vartime(shift)
                 .expect("shift within range");
